@@ -71,9 +71,11 @@ def make_sub_class(base, nvars, check, endo, lags=0, leads=0):
         # the submodel's own hooks: run by BaseModel.solve_t, never by a linker
         def solve_t_before(self, t, *, errors='raise', catch_first_error=True, iteration=None, **kwargs):
             self.__dict__['_evlog'].append(['before', int(t), int(iteration)])
+            run_actions(self, t, self.__dict__.get('_own', {}).get(str(self._pos(t)), {}).get('before', []))     # value effects (plain writes)
 
         def solve_t_after(self, t, *, errors='raise', catch_first_error=True, iteration=None, **kwargs):
             self.__dict__['_evlog'].append(['after', int(t), int(iteration)])
+            run_actions(self, t, self.__dict__.get('_own', {}).get(str(self._pos(t)), {}).get('after', []))
 
     return ScriptedSub
 
@@ -130,6 +132,7 @@ def instantiate_sub(base, sub, span, shared):
     m.__dict__['_status'][:] = sub['status']
     m.__dict__['_iterations'][:] = sub['iters']
     m.__dict__['_scripts'] = sub.get('passes', {})
+    m.__dict__['_own'] = sub.get('own', {})          # the model's OWN solve_t_before / solve_t_after scripts (a linker never runs them)
     m.__dict__['_evlog'] = []
     m.__dict__['_kwseen'] = []
     m.__dict__['_shared'] = shared
@@ -245,7 +248,7 @@ def make_linker_class(base, nvars, check):
         def _snapshot(self, t):
             """check vectors of the linker and of every submodel, as the property's oracle needs them"""
             d = self.__dict__
-            snap = {'_': [float(d['_' + n][t]) for n in self.check]}
+            snap = {'__own__': [float(d['_' + n][t]) for n in self.check]}      # not '_': a submodel may be keyed '_'
             for k, m in d['submodels'].items():
                 snap[str(k)] = [float(m.__dict__['_' + n][t]) for n in m.check]
             d['_snaps'].append(snap)
@@ -297,7 +300,8 @@ def instantiate_linker(fsic, case):
     core = case['core']
     cls = make_linker_class(fsic.BaseLinker, core['nvars'], core['check'])
     if subs:
-        L = cls({sub['id']: m for sub, m in zip(case['subs'], subs)})
+        # the linker's own name must not be a submodel id (fix f5ef8bd): 'world' whenever a submodel is keyed '_' (the default name)
+        L = cls({sub['id']: m for sub, m in zip(case['subs'], subs)}, **({'name': 'world'} if any(sub['id'] == '_' for sub in case['subs']) else {}))
     else:
         L = cls({}, span=list(span))
     for i, row in enumerate(core['vals']):
